@@ -62,7 +62,10 @@ impl Record<'_> {
 
     pub(crate) fn alignment_end(&self) -> Option<Position> {
         self.alignment_start.and_then(|alignment_start| {
-            let end = usize::from(alignment_start) + self.alignment_span() - 1;
+            // A placed record without aligned bases (e.g., a read that is soft clipped as a whole)
+            // still occupies its start position.
+            let span = self.alignment_span().max(1);
+            let end = usize::from(alignment_start) + span - 1;
             Position::new(end)
         })
     }
@@ -635,6 +638,32 @@ mod tests {
             },
         ];
         assert_eq!(calculate_alignment_span(20, &features), 21);
+
+        Ok(())
+    }
+
+    #[test]
+    fn test_alignment_end() -> Result<(), noodles_core::position::TryFromIntError> {
+        let mut record = Record {
+            bam_flags: sam::alignment::record::Flags::empty(),
+            read_length: 4,
+            ..Default::default()
+        };
+
+        assert!(record.alignment_end().is_none());
+
+        record.alignment_start = Some(Position::try_from(5)?);
+        assert_eq!(record.alignment_end(), Some(Position::try_from(8)?));
+
+        // The read is soft clipped as a whole.
+        record.features = vec![Feature::SoftClip {
+            position: Position::MIN,
+            bases: Cow::from(b"ACGT"),
+        }];
+        assert_eq!(record.alignment_end(), Some(Position::try_from(5)?));
+
+        record.alignment_start = Some(Position::MIN);
+        assert_eq!(record.alignment_end(), Some(Position::MIN));
 
         Ok(())
     }
